@@ -158,6 +158,7 @@ class TorchBackend:
         tensor_required_funcs = {
             'abs', 'trunc', 'floor', 'ceil', 'round', 'sign',
             'sin', 'cos', 'tan', 'exp', 'log', 'sqrt',
+            'tanh', 'sinh', 'cosh', 'log10', 'log2',
             'isinf', 'isnan', 'isfinite',
             'minimum', 'maximum', 'fmod',
             'less', 'greater', 'less_equal', 'greater_equal',
@@ -1022,7 +1023,8 @@ class TorchBackendProvider(BackendProvider):
 
         param_names = list(self._collect_params(ir))
         fn_source = f"def _expr({', '.join(param_names)}): return {source}"
-        ns = {'_div': compiled_divide}
+        from ..dyads import eval_dyad_power  # not at module level: dyads imports the backends
+        ns = {'_div': compiled_divide, '_pow': lambda a, b: eval_dyad_power(a, b, self)}
         try:
             exec(fn_source, ns)
         except Exception:
@@ -1046,11 +1048,13 @@ class TorchBackendProvider(BackendProvider):
             if l is None or r is None:
                 return None
             # A verb that is not a Python operator is emitted as a call of its helper:
-            # Divide answers :undefined for a scalar zero divisor (compiled_divide).
-            call = {'%': '_div'}.get(op)
+            # Divide answers :undefined for a scalar zero divisor (compiled_divide);
+            # Power returns integers for whole results and takes the power in floating
+            # point (eval_dyad_power), where ** keeps 4.0**2 real and 2**-1... is libm's pow.
+            call = {'%': '_div', '^': '_pow'}.get(op)
             if call is not None:
                 return f'{call}({l},{r})'
-            py_op = {'+': '+', '-': '-', '*': '*', '^': '**'}.get(op)
+            py_op = {'+': '+', '-': '-', '*': '*'}.get(op)
             if py_op is None:
                 return None
             return f'({l}{py_op}{r})'
